@@ -584,6 +584,41 @@ pub fn copy_dir(src: &Path, dst: &Path) -> std::io::Result<()> {
 
 /// path (relative) -> bytes for every regular file under `root`; directories listed with None.
 pub fn tree_snapshot(root: &Path) -> BTreeMap<String, Option<Vec<u8>>> {
+    tree_snapshot_full(root)
+}
+
+/// Like `tree_snapshot` but does not descend into top-level entries named `skip`.
+pub fn tree_snapshot_skipping(root: &Path, skip: &str) -> BTreeMap<String, Option<Vec<u8>>> {
+    let mut out = BTreeMap::new();
+    let Ok(rd) = std::fs::read_dir(root) else {
+        return out;
+    };
+    for entry in rd.flatten() {
+        if !skip.is_empty() && entry.file_name().to_string_lossy() == skip {
+            continue;
+        }
+        let path = entry.path();
+        let rel = entry.file_name().to_string_lossy().to_string();
+        match entry.file_type() {
+            Ok(t) if t.is_dir() => {
+                out.insert(format!("{rel}/"), None);
+                for (k, v) in tree_snapshot(&path) {
+                    out.insert(format!("{rel}/{k}"), v);
+                }
+            }
+            Ok(t) if t.is_file() => {
+                out.insert(rel, std::fs::read(&path).ok());
+            }
+            Ok(_) => {
+                out.insert(format!("{rel}@"), None);
+            }
+            Err(_) => {}
+        }
+    }
+    out
+}
+
+pub fn tree_snapshot_full(root: &Path) -> BTreeMap<String, Option<Vec<u8>>> {
     fn walk(base: &Path, dir: &Path, out: &mut BTreeMap<String, Option<Vec<u8>>>) {
         let Ok(rd) = std::fs::read_dir(dir) else {
             return;
